@@ -324,7 +324,51 @@ func c12Misuses() []misuse {
 			out = append(out, misuse{lvl, key, "missing value", false}, misuse{lvl, key + " a b", "two values", false})
 		}
 		out = append(out, misuse{lvl, "arg:context:regex (", "invalid regex", false}, misuse{lvl, "enum:unknown @bogus", "invalid action", false})
+		// near misses of every existing key: longer, shorter, extra segment, other case. None of them is a setting.
+		for _, nm := range nearMissKeys() {
+			for _, val := range []string{"", " yes", " A B"} {
+				out = append(out, misuse{lvl, nm + val, "unknown setting (near miss of an existing key)", false})
+			}
+		}
 	}
+	return out
+}
+
+// allSettingKeys: every documented setting key (converter, method and common ones).
+var allSettingKeys = []string{"converter", "variables", "name", "output:file", "output:package", "output:format", "output:raw", "struct:comment", "extend", "enum:exclude",
+	"wrapErrors", "wrapErrorsUsing", "ignoreUnexported", "update:ignoreZeroValueField", "update:ignoreZeroValueField:basic",
+	"update:ignoreZeroValueField:struct", "update:ignoreZeroValueField:nillable", "default:update", "matchIgnoreCase", "ignoreMissing",
+	"skipCopySameType", "useZeroValueOnPointerInconsistency", "useUnderlyingTypeMethods", "enum", "arg:context:regex", "enum:unknown",
+	"map", "ignore", "update", "context", "enum:map", "enum:transform", "autoMap", "default"}
+
+func nearMissKeys() []string {
+	valid := map[string]bool{}
+	for _, k := range allSettingKeys {
+		valid[k] = true
+	}
+	seen := map[string]bool{}
+	var out []string
+	add := func(k string) {
+		if k == "" || valid[k] || seen[k] || strings.ContainsAny(k, " \t") {
+			return
+		}
+		seen[k] = true
+		out = append(out, k)
+	}
+	for _, k := range allSettingKeys {
+		add(k + "s")
+		add(k + ":")
+		add(k + ":x")
+		add(k + ":pointer")
+		add(k[:len(k)-1])
+		add(strings.ToUpper(k[:1]) + k[1:])
+		add(strings.ToLower(k))
+		if i := strings.LastIndex(k, ":"); i >= 0 {
+			add(k[:i] + k[i+1:]) // segment separator dropped
+			add(k[:i] + "::" + k[i+1:])
+		}
+	}
+	sort.Strings(out)
 	return out
 }
 
